@@ -8,7 +8,7 @@ export GOFLAGS=-mod=mod GOPROXY=off GOSUMDB=off GOTOOLCHAIN=local; unset GOWORK
 mkdir -p $t/out; cp /verif/known_findings.json $t/out/
 for p in "$@"; do
   out=$(GCV_REPO=$t/tree GCV_VERIF=$t/out GCV_VARIANT=1 ${GCV_BIN:-/verif/bin/gcv} -p $p 2>&1)
-  echo "$out" | grep -A1 "^VIOLATION" | grep "rule" | cut -c1-${W:-300} | sed "s/^/$p: /" | head -${ASTMAX:-4}
+  echo "$out" | grep -A1 "^VIOLATION\|^UNDECIDED" | grep "rule" | cut -c1-${W:-300} | sed "s/^/$p: /" | head -${ASTMAX:-4}
   echo "$out" | tail -1
 done
 if [ -n "$KEEP" ]; then echo "kept $t"; else rm -rf $t; fi
